@@ -47,6 +47,14 @@ let dump_map (m : PacketMap.pmap) =
   | Some es ->
      List.fold_left (fun acc e -> acc ^ " " ^ zs e.e_first ^ ":" ^ zs e.e_count ^ ":" ^ zs e.e_delta ^ ":" ^ zs e.e_pidDelta) hd es
 
+(* the flags are computed by the model of PacketFlags from the packet's bytes;
+   the flags printed in the trace (what the real PacketFlags returned) are used
+   only for packets outside that model (RTP header extension) *)
+let model_flags vp8 data trace_flags =
+  match Flags.packet_flags (if vp8 then Flags.CVP8 else Flags.CVP9) data with
+  | Flags.FOk (f, _) -> f
+  | _ -> trace_flags
+
 let comp_forward : comp = fun params ->
   let vp8 = b (List.nth params 0) in
   let st = ref (Forward.f_init (z (List.nth params 1))) in
@@ -62,13 +70,13 @@ let comp_forward : comp = fun params ->
       | "cstore" :: s :: ts :: kf :: m :: rest ->
          let fl = flags_of (take 11 rest) in
          (match drop 11 rest with
-          | [data] -> OCStore (z s, z ts, b kf, b m, fl, bytes_of_hex data)
+          | [data] -> let d = bytes_of_hex data in OCStore (z s, z ts, b kf, b m, model_flags vp8 d fl, d)
           | _ -> failwith "cstore")
       | ["cresize"; k] -> OCResize (z k)
       | "write" :: rest ->
          let fl = flags_of (take 11 rest) in
          (match drop 11 rest with
-          | [data] -> OWrite (fl, bytes_of_hex data)
+          | [data] -> let d = bytes_of_hex data in OWrite (model_flags vp8 d fl, d)
           | _ -> failwith "write")
       | ["nack"; l] -> ONack (zlist l)
       | ["adjust"] -> OAdjust
